@@ -19,8 +19,8 @@ from pyvc.values import VInt, VObj, VList, VTuple, VStr, VDict, VModel, VOpaque,
 ARITH = (TypeError, ValueError, OverflowError)
 DECLARED = {
     "_?_:_": (TypeError,), "_||_": (TypeError,), "_&&_": (TypeError,),
-    "_<_": (TypeError,), "_<=_": (TypeError,), "_>_": (TypeError,), "_>=_": (TypeError,), "_==_": (TypeError,), "_!=_": (TypeError,),
-    "_in_": (TypeError,),
+    "_<_": ARITH, "_<=_": ARITH, "_>_": ARITH, "_>=_": ARITH, "_==_": ARITH, "_!=_": ARITH,      # CPython negates an int64 while comparing it with a float
+    "_in_": ARITH,
     "_+_": ARITH, "_-_": ARITH, "_*_": ARITH, "_/_": ARITH + (ZeroDivisionError,), "_%_": ARITH + (ZeroDivisionError,),
     "!_": (TypeError,), "-_": (TypeError, ValueError),
     "_[_]": (TypeError, KeyError, IndexError),
